@@ -169,7 +169,43 @@ func runC06(c *fw.Case) (o fw.Outcome) {
 		}
 		o.Input = fmt.Sprintf("NIA%d/NEA%d kint=%x kenc=%x history(%d ops): %v", iAlg, cAlg, ue.KnasInt, ue.KnasEnc, n, trace)
 	}()
+	dlAmf := uint32(0)
 	for s := 0; s < steps; s++ {
+		// Downlink traffic on the same UE context in between (one history in two): whatever the UE receives - plain,
+		// protected with any header type (3/4: a Security Mode Command), a wrong MAC - the uplink COUNT stays where it is;
+		// only SENDING with newSecurityContext resets it.
+		if c.Idx%4 >= 2 && s > 0 && r.Intn(5) == 0 {
+			dplain, dkind := plainDownlink(r)
+			dsht := uint8(pick(r, 0, 1, 2, 2, 2, 3, 3, 4))
+			wire := dplain
+			if dsht != 0 {
+				if dsht >= 3 {
+					dlAmf = 0
+				}
+				var perr error
+				wire, perr = sec.ProtectNAS(iAlg, cAlg, ue.KnasInt[:], ue.KnasEnc[:], dlAmf, 1, 1, dsht, dsht == 2 || dsht == 4, dplain)
+				if perr != nil {
+					o.Inconcl("reference protect: %v", perr)
+					return
+				}
+				dlAmf = (dlAmf + 1) & 0xffffff
+				if r.Intn(4) == 0 && len(wire) > 6 {
+					wire[2+r.Intn(4)] ^= byte(1 + r.Intn(255)) // a message that fails the integrity check
+					dkind += "(bad MAC)"
+				}
+			}
+			func() {
+				defer func() { recover() }() // what the decoder does with the message is C10's business
+				tglib.NASDecode(ue, dsht, append([]byte(nil), wire...))
+			}()
+			o.Count("downlink_messages_interleaved", 1)
+			trace = append(trace, fmt.Sprintf("<-%s sht=%d", dkind, dsht))
+			hist = fw.Hash([]byte{byte(hist), byte(hist >> 8), byte(hist >> 16), byte(hist >> 24), 0xd1, dsht}, wire)
+			if ue.ULCount.Get() != shadow {
+				o.Fail("ul-count-changed-by-downlink", "step %d: receiving a downlink %s (header type %d) moved the uplink COUNT from %#x to %#x; the next uplink message would reuse a COUNT under the same key", s, dkind, dsht, shadow, ue.ULCount.Get())
+				return
+			}
+		}
 		plain, kind := plainUplink(r)
 		// reset profile (by case index): frequent new contexts, rare ones (the 8-bit SQN wraps several times in between),
 		// or none at all (the only way to walk across the 2^24 wrap)
@@ -231,6 +267,7 @@ func runC06(c *fw.Case) (o fw.Outcome) {
 		protected++
 		if newCtx {
 			shadow = 0
+			dlAmf = 0
 			o.Count("context_resets", 1)
 		}
 		if len(out) < 7 || out[0] != 0x7e || out[1] != sht {
